@@ -57,6 +57,21 @@ CLAIMED.update({
           "Known finding F10 (child Disable followed by any re-registration unregisters twice) ends the runs that hit it. remove() on a Replace state (documented leak) and non-alternating parent calls (LoopHandle::remove of a disabled source) are outside the property's proviso.", "3/C18"),
 })
 
+CLAIMED.update({
+  "C03": ("dsim+tsim", "deterministic simulation: shuttle-scheduled threads pinging a real loop (schedules at every eventfd write/drain/handle drop) + single-threaded histories, history oracles", "exploration",
+          "tsim: 1-3 pinger threads with cloned handles against a dispatching loop, every interleaving chosen by a seeded random / PCT scheduler at the granularity of each eventfd write, drain and handle drop (hooks) ; after each execution the recorded history is checked: every returned ping() is followed by a callback that starts after the ping began, every callback is justified by a ping written since the previous callback, the source removes itself after the last handle is gone and the loop does not spin afterwards. dsim: single-threaded histories of ping/clone/drop/disable/enable/dispatch under the model oracle (coalescing, close marker, removal).",
+          "Sequentially consistent interleavings only; the eventfd itself is the real kernel object.", "3/C03"),
+  "C04": ("dsim+tsim", "deterministic simulation: shuttle-scheduled sender threads (calloop's mpsc replaced by shuttle's model) + single-threaded histories around the 1024 batch limit, history oracles", "exploration",
+          "tsim: channel() and sync_channel(0/1/2/8), 1-3 sender threads doing send/try_send/drop, schedules at every queue push/pop, wake write and drain; oracle over the history: each successfully sent message delivered exactly once, per-sender order, exactly one Closed after the last sender began to drop, nothing after it, channel removed, and liveness: the loop thread is never left dispatching without progress while a sender is blocked or a message is queued. dsim: queue lengths 1023/1024/1025/2049, sync capacities, disable/enable, in-callback sends under the FIFO model.",
+          "Known finding F02 (sync_channel(0) rendezvous deadlock) is reported as KNOWN-FINDING. mpsc is shuttle's model of std's.", "3/C04"),
+  "C10": ("dsim+tsim", "deterministic simulation: shuttle-scheduled waker threads against an Executor in a real loop + single-threaded executor/stream histories, history oracles", "exploration",
+          "tsim: 1-3 scripted futures (Pending m times, waker stashed), 1-3 threads waking them, optional removal of the executor while wakers are active; schedules at enqueue / notified-flag swap / eventfd write / flag clear / dequeue; oracle: every completed wake of a live task is followed by a poll, polls and drops only on the loop thread, each output exactly once, after the executor is dropped every future is dropped and schedule() is refused. dsim: schedule from callbacks and futures, 1023/1024/1025/2049 runnable tasks, drop with queued/finished/pending tasks, StreamSource item order / single None / removal.",
+          "Known finding F12 (wake racing Executor::drop leaks the future) is reported as KNOWN-FINDING. Interleavings inside async-task are atomic steps.", "3/C10"),
+  "C11": ("tsim", "deterministic simulation: shuttle-scheduled stop()/wakeup()/waker.wake() threads against run() and block_on() with the real poller notifier, history oracle", "exploration",
+          "The loop thread runs run(None) or block_on(future); 1-3 threads issue wakeup(), stop() and waker wakes at every point of the loop thread's progress (flag checks, entering/leaving the wait, polling the future); the wait hook never blocks the OS thread: it consults the real eventfd counter of polling's notifier and the real epoll each round and yields, and declares the loop stuck after 3000 empty rounds with fair yielding. Oracle: never stuck after a completed wakeup / stop+wakeup / wake; run returns Ok only after a stop began; at most one new wait after stop();wakeup() completed; block_on returns Some iff the future returned Ready, None only after a stop, every wake followed by a poll.",
+          "stop() issued before run() has reset its flag is outside the property. polling's notify/wait are real code.", "3/C11"),
+})
+
 NOT_APPLICABLE = {
   "C20": "pure function of its inputs (shift/mask arithmetic, a counter): no schedule, clock, fault or history for a simulator to control; exhaustive enumeration or proof would be the right tool, which is outside this technique family",
 }
@@ -100,14 +115,17 @@ def main():
             "enable": "RUSTFLAGS='--cfg calloop_verif' through the shadow manifest /verif/shadow/calloop/Cargo.toml whose [lib] path points at /repo/src/lib.rs (bin/check does this)",
             "baseline_off_cmd": "cd /repo && cargo test --workspace --no-fail-fast --offline",
             "source_commits": hooks,
-            "add_only": True,
+            "add_only": False,
         },
         "engines": [
-            {"name": "dsim", "path": "/verif/sim", "serves_properties": sorted(k for k, v in CLAIMED.items() if v[0] == "dsim"),
+            {"name": "tsim", "path": "/verif/sim (feature tsim)", "serves_properties": sorted(k for k, v in CLAIMED.items() if "tsim" in v[0]),
+             "kind_free_text": "thread-schedule simulator on shuttle: calloop built with its mpsc/Mutex/AtomicBool replaced by shuttle's models, all threads are coroutines on one OS thread, seeded random and PCT schedulers wrapped in a record/replay scheduler with fair yields; named scheduling points at every eventfd write/drain/notify; history oracles; schedule + parameter minimisation; replay files"},
+            {"name": "dsim", "path": "/verif/sim", "serves_properties": sorted(k for k, v in CLAIMED.items() if "dsim" in v[0]),
              "kind_free_text": "single-threaded discrete-event simulator: generated program (data) drives a real EventLoop and a reference model in lock-step; virtual clock, non-blocking wait, seeded batch permutation, injected epoll_ctl faults; 16 worker processes; JSON delta-debugging minimiser; replay files"},
         ],
         "checks": checks,
         "not_applicable": na,
+        "engines_note": "second hook commit (calloop_verif_shuttle) splits three existing std::sync import lines into cfg(not(..)) / cfg(..) pairs; everything else in both hook commits only adds code",
         "notes": "Exit codes of every command: 0 held (possibly with KNOWN-FINDING lines), 1 unlisted violation (VIOLATION line with replay file), 2 harness error. VERIF_SEED selects the seed (default 1), VERIF_RUNS overrides the run count.",
     }
     json.dump(m, open("/verif/MANIFEST.json", "w"), indent=1)
